@@ -18,6 +18,13 @@ objs=[f('+')*v('-')*dS + f('-')*f('-')*v('+')*dS]'''),
     corpus._c("c02_int_facet_hex_normal", '''
 m=mesh("hexahedron"); V=space(m,"DQ",1); v=TestFunction(V); f=Coefficient(V); n=FacetNormal(m)
 objs=[f('+')*n('+')[2]*v('-')*dS + f('-')*n('-')[0]*v('+')*dS]'''),
+    # quantities of the facet as seen from one side (reference facet Jacobian of THAT cell's local facet): '-' and '+'
+    corpus._c("c02_facet_geometry_of_each_side_tri", '''
+m=mesh("triangle"); V=space(m,"DP",1); u,v=TrialFunction(V),TestFunction(V); f=Coefficient(V)
+objs=[FacetArea(m)('-')*f('+')*v('-')*dS + FacetArea(m)('+')*v('+')*dS, (CellVolume(m)('-')/FacetArea(m)('-'))*jump(u)*jump(v)*dS]'''),
+    corpus._c("c02_facet_geometry_of_each_side_tet", '''
+m=mesh("tetrahedron"); V=space(m,"DP",1); v=TestFunction(V); f=Coefficient(V)
+objs=[FacetArea(m)('-')*f('-')*v('+')*dS + avg(CellVolume(m)/FacetArea(m))*avg(v)*dS]'''),
     corpus._c("c02_mayreject_ext_facet_prism_normal", '''
 m=mesh("prism"); V=space(m,"P",1); v=TestFunction(V); f=Coefficient(V); n=FacetNormal(m)
 objs=[f*n[2]*v*ds + f*n[0]*v*ds]'''),
@@ -69,6 +76,31 @@ def run(v, tier, seed, g):
     res = valprops.run_oracle(cases, seed, entity_mode="all")
     st = valprops.account(v, res, "c02", types={"exterior_facet", "interior_facet", "vertex"},
                           what="facet/vertex kernel differs from the integral over the indicated local entity")
+    # the two sides of an interior facet with DIFFERENT local facet numbers (the '-' cell renumbered; in the runs above
+    # the '-' cell is the mirror image with the same numbering): data of each side must come from that side's entity
+    import common
+    ds_cases = [c for c in corpus.PINNED + EXTRA if "dS" in c["code"]]
+    sides = {"kernel_runs": 0, "mismatch": 0, "unsupported": 0}
+    for rnd in range(2 if tier == "quick" else 12):
+        res2 = common.run_cases(ds_cases, script="oraclerun.py", timeout=400,
+                                extra={"seed": seed + 104729 * (rnd + 1), "entity_mode": "random", "affine": True, "renumber": True})
+        for r in res2:
+            if r["status"] != "ok":
+                continue
+            for k in r["kernels"]:
+                if k.get("status") == "unsupported":
+                    sides["unsupported"] += 1
+                if k.get("integral_type") != "interior_facet" or k["status"] not in ("agree", "mismatch"):
+                    continue
+                sides["kernel_runs"] += 1
+                ok = k["status"] == "agree"
+                v.oblige(ok)
+                if not ok:
+                    sides["mismatch"] += 1
+                    v.violation(f"c02-sides:{r['id']}", f"interior-facet kernel of case {r['id']}: with different local facet numbers on the two sides no permutation code gives the integral over the shared facet "
+                                f"(relative error {k['error']:.3g}): some quantity is not taken from the entity of its own side",
+                                {"case": r["id"], "code": r["code"], "renumbering": k.get("codes"), "seed": seed + 104729 * (rnd + 1)})
+    v.notes["two_sides_with_different_local_facets"] = sides
     if not g["ok"] and not v.violations:
         v.violation("gate", "proof obligations no longer check: " + "; ".join(g["broken"]), {"broken": g["broken"]}, no_input=True)
     import embedcorr
